@@ -422,6 +422,10 @@ Builtin(C, name, vs, st) ==
                      keep == {j \in 1..Len(es) : ~ValEq(es[j].f[1], vs[2])} IN
                  RV(VVoid, [st EXCEPT !.store[vs[1].r] = SelectSeq(es, LAMBDA x : ~ValEq(x.f[1], vs[2]))])
      [] name \in HofBuiltins -> Hof(C, name, vs, st)      \* higher-order library functions (block above)
+     [] name = "array_remove_at" /\ n >= 1 /\ vs[1].t = "arr" /\ vs[1].s = "lit" -> RV(VVoid, st)      \* INTERP_STATIC_ARRAYS: refused, void, nothing removed
+     [] name = "array_slice" /\ n >= 1 /\ vs[1].t = "arr" /\ vs[1].s = "lit" ->                       \* INTERP_STATIC_ARRAYS: the slice of a static array is static
+            LET r == LibApply(name, vs, st.store) IN
+            IF r.ok = "ok" THEN RV([r.v EXCEPT !.s = "lit"], [st EXCEPT !.store = r.store]) ELSE RV(VVoid, Fault(st, r.ok))
      [] name \in LibBuiltins ->        \* the standard library (NanoLib.tla): functions of the argument values and the store
             LET r == LibApply(name, vs, st.store) IN
             IF r.ok = "ok" THEN RV(r.v, [st EXCEPT !.store = r.store]) ELSE RV(VVoid, Fault(st, r.ok))
